@@ -124,7 +124,7 @@ def dicts(values):
 
 
 def units(tier):
-    us = [("UPDATE", i) for i in range(16)] + [("FIND",), ("FINDLIST",), ("FINDKEY",), ("MAPFILE",)]
+    us = [("UPDATE", i) for i in range(16)] + [("FIND",), ("FINDLIST",), ("FINDKEY",), ("MAPFILE",), ("UPDATE2",)]
     return us
 
 
@@ -293,8 +293,8 @@ def run_find_listvalues(res):
     """find: 'the first item whose key equals the value' also when the value is a list (colours, sizes are lists in a Mapfile dict)"""
     import mappyfile
 
-    vals = [None, [255, 0, 0], [0, 0, 0], 255, "255 0 0"]
-    queries = [[255, 0, 0], [0, 0, 0], [1, 2, 3], 255, 0, "255 0 0"]
+    vals = [None, [255, 0, 0], [0, 0, 0], 255, "255 0 0", 0, "", False]
+    queries = [[255, 0, 0], [0, 0, 0], [1, 2, 3], 255, 0, "255 0 0", "", False]
     n = 0
     for L in range(0, 4):
         for combo in itertools.product(range(len(vals)), repeat=L):
@@ -326,6 +326,59 @@ def run_find_listvalues(res):
                     R.add_violation(res, "find|colors=%r query=%r" % ([vals[i] for i in combo][-2:], q), "find with a list-valued value differs from its documented law: " + why,
                                     {"op": "findlist", "values": [vals[i] for i in combo], "query": q}, None)
     R.add_sub(res, "find with list-valued keys and queries", n)
+
+
+def run_update2(res):
+    """two-step histories: one patch object applied to two targets (and a patch list repeating one dict), then a second update
+    addressing a single position; every step is compared with the reference run on deep copies (value semantics)"""
+    import mappyfile
+
+    bases = [{"a": []}, {"a": [{"a": 1}]}, {"a": [{"a": 1}, {"b": 2}]}, {}]
+    item = {"b": 7}
+    firsts = [("append one", lambda: {"a": [None, None, dict(item)]}), ("append same dict twice", None), ("new key list", lambda: {"b": [dict(item)]})]
+    seconds = [{"a": [None, None, {"b": 8}]}, {"a": [None, None, None, {"a": 5}]}, {"b": [{"b": 9}]}, {"a": [None, None, {"b": "__delete__"}]}]
+    n = 0
+    for bi, base in enumerate(bases):
+        for fname, fmk in firsts:
+            for si, p2 in enumerate(seconds):
+                for mapfile in (False, True):
+                    if fmk is None:
+                        shared = dict(item)
+                        p1 = {"a": [None] * len(base.get("a", [])) + [shared, shared]}
+                    else:
+                        p1 = fmk()
+                        if "a" in p1:
+                            p1["a"] = [None] * len(base.get("a", [])) + p1["a"][2:]
+                    if not compatible(base, p1):
+                        continue
+                    t1, t2 = mk(base, mapfile), mk(base, mapfile)
+                    r1 = ref_update(copy.deepcopy(base), copy.deepcopy(p1))
+                    r2 = ref_update(copy.deepcopy(base), copy.deepcopy(p1))
+                    p2c = copy.deepcopy(p2)
+                    # re-base the second patch onto the current length of the list
+                    if "a" in p2c:
+                        p2c["a"] = [None] * len(base.get("a", [])) + p2c["a"][2:]
+                    if not compatible(r1, p2c):
+                        continue
+                    res["evals"] += 1
+                    n += 1
+                    try:
+                        mappyfile.update(t1, p1)
+                        mappyfile.update(t2, p1)          # the same patch object on a second target
+                        mappyfile.update(t1, mk(p2c, False))
+                        ref_update(r1, copy.deepcopy(p2c))
+                        ok = D.typed(D.plain(t1)) == D.typed(r1) and D.typed(D.plain(t2)) == D.typed(r2)
+                        why = "after update(t1,p1); update(t2,p1); update(t1,p2): t1=%r (reference %r), t2=%r (reference %r)" % (D.plain(t1), r1, D.plain(t2), r2)
+                    except Exception as e:
+                        ok, why = False, "raised %s: %s" % (type(e).__name__, e)
+                    if ok:
+                        R.add_outcome(res, "agrees")
+                        res["states"].add(R.h64(("u2", bi, fname, si, mapfile)))
+                    else:
+                        R.add_outcome(res, "differs")
+                        R.add_violation(res, "update2|base=%r first=%s second=%r" % (base, fname, p2c), "a second update changes something its patch does not mention: " + why,
+                                        {"op": "update2"}, None)
+    R.add_sub(res, "two-step update histories with shared patch objects", n)
 
 
 def run_findkey(res):
@@ -417,6 +470,8 @@ def run_unit(unit):
         run_find(res)
     elif unit[0] == "FINDLIST":
         run_find_listvalues(res)
+    elif unit[0] == "UPDATE2":
+        run_update2(res)
     elif unit[0] == "FINDKEY":
         run_findkey(res)
     else:
